@@ -120,6 +120,11 @@ func GenPush(t *rapid.T, via string) PushCase {
 	c.MaxStreams = rapid.IntRange(1, 4).Draw(t, "maxstreams")
 	kinds := []string{"start", "start", "upload", "upload", "upload", "manifest"}
 	types := []string{"s500", "s503", "s400", "s403", "neterr", "neterr2", "early"}
+	if via != "legacy" {
+		// a redirect the http client cannot follow (the upload PUT has a file as its body, which cannot be replayed): the
+		// 3xx answer comes back to the caller as it is - it is not an acceptance
+		types = append(types, "s307", "s308")
+	}
 	if via == "legacy" {
 		kinds = []string{"head", "start", "part", "part", "part", "direct", "commit", "commit", "manifest"}
 		if rapid.IntRange(0, 2).Draw(t, "anyredirect") == 0 {
@@ -499,6 +504,9 @@ func pushStatus(req *http.Request, typ string) (*http.Response, error, bool) {
 		return statusResp(req, 404, "NAME_UNKNOWN"), nil, true
 	case "s405":
 		return statusResp(req, 405, "UNSUPPORTED"), nil, true
+	case "s307", "s308":
+		code := map[string]int{"s307": 307, "s308": 308}[typ]
+		return emptyResp(req, code, http.Header{"Location": {"https://blobs.example.net/handed-over" + req.URL.Path}}), nil, true
 	case "neterr":
 		return nil, errReset, true
 	case "neterr2":
